@@ -23,13 +23,14 @@ def run(tier, seed):
     import shutil
     shutil.copy(os.path.join(vlib.VERIF, "harness/wat/c04_ctl.wat"), os.path.join(wdir, "c04ctl.wat"))
     shutil.copy(os.path.join(vlib.VERIF, "harness/wat/c05_decl.wat"), os.path.join(wdir, "c04decl.wat"))
+    open(os.path.join(wdir, "c04types.wat"), "w").write(wasmgen.c04_types_wat())
     ov = vlib.make_overlay(c.scratch, [{"dir": WH, "name": "wh"}, {"dir": WB, "name": "main", "rt": False}])
-    mods = ("c04ops", "c04mem", "c04ctl", "c04decl")
+    mods = ("c04ops", "c04mem", "c04ctl", "c04decl", "c04types")
     failed = vlib.build_wasm_keepgoing(c.scratch, ov, [["wat2wasm", os.path.join(wdir, n + ".wat"), os.path.join(wdir, n + ".wasm")] for n in mods])
     asm_violations = []
     for i, err in failed.items():
         name = mods[i]
-        if name in ("c04ctl", "c04decl"):
+        if name in ("c04ctl", "c04decl", "c04types"):
             asm_violations.append((name, "whole module", err, open(os.path.join(wdir, name + ".wat")).read()))
             continue
         # the tree's assembler rejects (or crashes on) a valid generated module: find the functions responsible,
@@ -77,6 +78,7 @@ def run(tier, seed):
     skip = set(fn for _, fn, _, _ in asm_violations)
     vlib.REPLAY_ENV["VF_WASM_DIR"] = wdir
     c.extra_cov["programs"] = len(ops)
+    mods = tuple(m for m in mods if m != "c04types" or os.path.exists(os.path.join(wdir, "c04types.wasm")))
     c.run_unit(WH, "wh", harnesses=["VfH_ops", "VfH_mem", "VfH_ctl", "VfH_decl"], extra_pkgs=[{"dir": WB, "name": "main", "rt": False}],
                opts={"wasm": ",".join("%s=%s" % (n, os.path.join(wdir, n + ".wasm")) for n in mods), "samples": 2})
     return c.finish()
